@@ -83,7 +83,7 @@ pub fn run(ctx: &Ctx) -> (Report, Meta) {
         let on_demand = i % 4 == 3;
         let lo = LowOpts { dense: !on_demand, max_step: scn.max_step, ..Default::default() };
         let mut so = RecSolOut::new(Some(&probe));
-        so.thetas = vec![0.0, 1.0];
+        so.thetas = vec![0.0, 1.0, 0.37, 0.81];
         so.keep_seg = scn.method == Method::BDF;
         if on_demand {
             let at = if rng.bool() { 0 } else { 1 + rng.below(6) };
@@ -196,6 +196,39 @@ pub fn run(ctx: &Ctx) -> (Report, Meta) {
                         case.clone(),
                     );
                     break;
+                }
+            }
+        }
+        if on_demand {
+            // an interpolant handed over on demand is the interpolant of that step: bit for bit what the same run hands over
+            // with dense_output on (C12 holds the two runs to the same steps), at the ends and inside the step
+            let probe2 = {
+                let mut p2 = Probe::new(&prob, scn.x0);
+                p2.user_jac = scn.user_jac;
+                p2.budget = 600_000;
+                p2
+            };
+            let lo2 = LowOpts { dense: true, max_step: scn.max_step, ..Default::default() };
+            let mut so2 = RecSolOut::new(Some(&probe2));
+            so2.thetas = so.thetas.clone();
+            if let LowOutcome::Ok(_) = run_low_guarded(scn.method, &probe2, scn.x0, &scn.y0, scn.xend, &scn.rtol, &scn.atol, &lo2, &mut so2) {
+                if so2.cbs.len() == so.cbs.len() {
+                    for k in 1..so.cbs.len() {
+                        let (a, b) = (&so.cbs[k], &so2.cbs[k]);
+                        if !a.has_interp || !b.has_interp || a.x.to_bits() != b.x.to_bits() {
+                            continue;
+                        }
+                        rep.count("on_demand_interpolants_compared_with_dense_twin", 1);
+                        if let Some(q) = (0..a.interp.len()).find(|&q| !bits_eq(&a.interp[q], &b.interp[q])) {
+                            rep.violate(
+                                &format!("C06/on_demand_interpolant_differs/{}/on_demand", m),
+                                format!("step {} [{:e},{:e}]: the interpolant handed over on demand gives {:?} at theta = {}, the one of the same step with dense_output on gives {:?}", k, a.xold, a.x, a.interp[q], so.thetas[q], b.interp[q]),
+                                &case_id,
+                                case.clone(),
+                            );
+                            break;
+                        }
+                    }
                 }
             }
         }
